@@ -196,6 +196,11 @@ def run(F, rep, tier):
     rep.analysed.update(dict(bodies=len(F.bodies), eval_reachable_bodies=len(seen), deferred_closures=len(G.deferred), dyn_signatures=len(G.coerced_by_sig),
                              unresolved_virtual_calls=len(G.unresolved)))
     rep.floor(r5, "evaluation-reachable bodies", len(seen), 600)
+    # R20.7: a call cannot observe another call's intermediate results: the prepared evaluator closures shared by all threads hold no cell
+    # (OnceLock / Mutex / RefCell / atomics) in which one evaluation could leave a value for another
+    from props import c13
+    r7 = rep.rule("R20.7", "the shared evaluator closures capture no interior-mutable state (no cache, once-cell, mutex or atomic) apart from the registries that evaluation only reads")
+    c13.capture_rule(F, G, rep, r7, 130)
     nreads = 0
     for n in sorted(seen):
         for (p, bi, line, c) in G.ext_calls.get(n, ()):
